@@ -158,7 +158,9 @@ func CallGoMethodFunction(env *Zlisp, name string, args []Sexp) (Sexp, error) {
 			case rune:
 				r = append(r, &SexpChar{Val: e})
 			default:
-				// go through the type registry
+				// go through the type registry; compare with the type of the value
+				// itself: the declared result type may be an interface
+				dynType := reflect.TypeOf(f)
 				found := false
 				// scan in registration order: a Go type registered under
 				// several names is reported under the first of them,
@@ -174,7 +176,7 @@ func CallGoMethodFunction(env *Zlisp, name string, args []Sexp) (Sexp, error) {
 							hashName, err)
 					}
 					//Q("got st from Factory, checking if types match")
-					if reflect.ValueOf(st).Type() == out[i].Type() {
+					if reflect.ValueOf(st).Type() == dynType {
 						//Q("types match")
 						retHash, err := MakeHash([]Sexp{}, factory.RegisteredName, env)
 						if err != nil {
